@@ -116,9 +116,13 @@ def legal_op(rng, m, k, weights=None, big=False):
             m.log = [e for e in m.log if e[1] < i]
             if lid < m.last:
                 m.last = lid
-            # a later append must carry a higher term or index; lower terms than the removed suffix are fine
-            if rng.random() < 0.5 and m.last != (0, 0):
+            # a later append must carry a higher term or index; lower terms than the removed suffix are fine,
+            # and so is a new leader's higher term (the usual reason for a truncation)
+            r = rng.random()
+            if r < 0.4 and m.last != (0, 0):
                 m.term = m.last[0]
+            elif r < 0.8:
+                m.term = max(m.term, m.last[0]) + 1
             return {"a": "truncate", "i": i}
         if op == "purge":
             r = rng.random()
@@ -343,4 +347,28 @@ def drop_scenario(rng, variant):
     steps += [{"a": "flush"}, {"a": "wfree", "n": 1}, {"a": "wrun", "n": 2}, {"a": "wait_cb"}, {"a": "obs"}]
     steps += [{"a": "append", "es": [[max(m.term, m.last[0]) + 1, m.last[1] + 1, "zz", 2]]}, {"a": "flush"},
               {"a": "wrun", "n": 2}, {"a": "wait_cb"}, {"a": "obs"}, {"a": "reopen", "cfg": cfg}, {"a": "read", "from": 0, "to": MAXI}]
+    return steps
+
+
+def truncate_purge_scenario(rng):
+    """C08: chunks that closed with a high `last` which a truncation has since made stale, re-append under a new
+    term, purge of everything, flush: the stale chunks hold nothing above the purge point and must go."""
+    mr = rng.choice([2, 3, 4])
+    cfg = {"mr": mr}
+    t = rng.choice([1, 2])
+    n = rng.choice([4, 6, 9])
+    steps = [{"a": "open", "cfg": cfg}]
+    steps.append({"a": "append", "es": [[t, i, "p%d" % i, rng.choice([2, 3, 6])] for i in range(n)]})
+    steps += [{"a": "flush"}, {"a": "wait_cb"}, {"a": "wait_idle"}]
+    j = rng.choice(range(1, n))
+    steps.append({"a": "truncate", "i": j})
+    k = rng.choice([1, 2, 3])
+    steps.append({"a": "append", "es": [[t + 1, j + x, "q%d" % x, 2] for x in range(k)]})
+    if rng.random() < 0.5:
+        steps.append({"a": "vote", "v": [t + 1, 1]})
+    steps += [{"a": "flush"}, {"a": "wait_cb"}, {"a": "wait_idle"}]
+    upto = [t + 1, j + rng.choice(range(k))]
+    steps.append({"a": "purge", "id": upto})
+    steps += [{"a": "flush"}, {"a": "wait_cb"}, {"a": "wait_idle"}, {"a": "read", "from": 0, "to": MAXI},
+              {"a": "reopen", "cfg": cfg}, {"a": "read", "from": 0, "to": MAXI}]
     return steps
